@@ -47,9 +47,11 @@ SPEC = Spec(
          "OnDone is a random wrap / errors.Join / multierr tree; oc=shut iff the tree contains a shutdown error (Go oracle on the "
          "real experr.IsShutdownErr + Lean outcomeOf on the printed shape). "
          "block (go1.26 synctest): the same differential for blockOnOverflow=true: offers that find the queue full run in their "
-         "own goroutine and park in hasMoreSpace.Wait; after every op the run is driven to quiescence, a signalled oldest waiter "
-         "is held at a gate in the storage client until the op's observation is written, then released call by call (`op wake`, "
-         "deaths after the k-th call); random cancellations of blocked offers; requests larger than the capacity. "
+         "own goroutine and park in hasMoreSpace.Wait; after every op the run is driven to quiescence; the producers it woke "
+         "(hasMoreSpace.Broadcast since c2c5f2c26: all of them) are parked at a gate in the condition's injectable Locker, not holding the "
+         "queue mutex, until the op's observation is written; then the harness lets them re-lock one at a time in a random order and "
+         "tells the model which (`op wake j=` = labels promote j, wake; admitted / re-blocked as youngest waiter; deaths after the k-th "
+         "call); random cancellations of blocked offers; requests larger than the capacity. "
          "codec: random values / arrays / truncated, oversized and inconsistent buffers through the four index codec functions. "
          "e2e (monitor, Go oracle): the real QueueSender + QueueBatch + asyncQueue consumers + persistentQueue over the real retrySender "
          "(1h back-off), 1-4 requests whose destination succeeds / rejects permanently / fails retryably; shutdown in BaseExporter order "
@@ -87,8 +89,9 @@ SPEC = Spec(
         "index codecs, moduli and remainders of the periodic size back-ups -> Gen/PQKeys.lean; the back-up periods are used by the model, "
         "the rest is pinned by C01_gen_key_names / C01_gen_keys_ok / C01_gen_codec_constants and used by C01_bytes_refine; it also "
         "fails unless asyncQueue's consumer loop and disabledBatcher.Consume have the pinned shape (Done called with the export's outcome)",
-        "blockOnOverflow: cond.go wakes waiters in FIFO order (C02); the model's `wake` label may fire at any time, the harness fires it "
-        "when the real oldest waiter was signalled",
+        "blockOnOverflow: which woken producer re-locks the queue mutex next is the Go scheduler's choice (label `promote j`, any j, any "
+        "time; `wake` lets the head re-check); the harness imposes the order through the condition's injectable Locker and reports it; "
+        "cond.go itself is C02",
         "classification of the error handed to OnDone: experr.IsShutdownErr(err) = the error tree contains a shutdown error "
         "(C01_classification_iff on the model side, direct differential on the real function over wrap/join/multierr trees)",
         "extension only (storage errors): a storage call that returns an error has no effect on the stored data",
